@@ -103,3 +103,19 @@ Fixpoint fails (k : N) (l : list N) : list (N * N) :=
   | [] => []
   | c :: r => if N.eqb c 0 then fails (N.succ k) r else (k, c) :: fails (N.succ k) r
   end.
+
+(** * the starting point of symmetric-cone problems ([Newton/Init.v])
+    [h] = diagonal of the identity scaling (0 on zero-cone rows, 1 elsewhere).
+    0 = both equalities hold to the tolerance, 1 = primal rows, 2 = dual equality *)
+Definition c_init (tolbits : Z) (n m : N) (Ptriu A : list trip) (q b h : list dy)
+           (x s z : list dy) : N :=
+  let P := symT Ptriu in
+  let fl := dshift (dmax d1 (dmax (norminf q) (norminf b))) (-30) in
+  let hs := vzip dmul h s in
+  let ep := vsubd (vaddd (spmv m A x) hs) b in
+  let sp := vaddd (vaddd (spmv m (absT A) (absv x)) (absv hs)) (absv b) in
+  let ed := vaddd (vaddd (spmv n P x) (spmv_t n A z)) q in
+  let sd := vaddd (vaddd (spmv n (absT P) (absv x)) (spmv_t n (absT A) (absv z))) (absv q) in
+  if negb (vsmall tolbits fl ep sp) then 1%N
+  else if negb (vsmall tolbits fl ed sd) then 2%N
+  else 0%N.
